@@ -191,6 +191,10 @@ def any_common(o, n):
     return any(any_common(oc, nc) for oc in o[1] for nc in n[1])
 
 
+def has_cells(s):
+    return any(has_cells(c) for c in s[1]) if s[0] == 'C' else True
+
+
 def check_clauses(old, new, ans):
     """returns (list of failed clause names, survivors_failed: bool)"""
     bad = []
@@ -238,6 +242,28 @@ def check_clauses(old, new, ans):
         if storage != exp:
             bad.append("zero-elsewhere")
     surv = False
+    # identity form for top-level child removal / insertion: every child with cells is copied whole from a child of equal shape
+    if not bad and old[0] == 'C' and new[0] == 'C':
+        def offs(cs):
+            o, res = 0, []
+            for c in cs:
+                res.append(o); o += size(c)
+            return res
+        def is_subseq(a, b):
+            i = 0
+            for x in b:
+                if i < len(a) and sk_eq(a[i], x): i += 1
+            return i == len(a)
+        oo, no = offs(old[1]), offs(new[1])
+        pset = set(ps)
+        if is_subseq(new[1], old[1]):
+            for j, c in enumerate(new[1]):
+                if has_cells(c) and size(c) > 0 and not any(sk_eq(c, oc) and (oo[i], no[j], size(c)) in pset for i, oc in enumerate(old[1])):
+                    surv = True
+        elif is_subseq(old[1], new[1]):
+            for i, c in enumerate(old[1]):
+                if has_cells(c) and size(c) > 0 and not any(sk_eq(c, nc) and (oo[i], no[j], size(c)) in pset for j, nc in enumerate(new[1])):
+                    surv = True
     if not bad and storage is not None:
         carried = sum(1 for w in storage if w != 0)
         if embeds(new, old) and carried != sn:
